@@ -149,9 +149,14 @@ def gen_case(run_seed: int, index: int, tier: str) -> dict:
             if not cplx and rng.random() < 0.06:
                 # this one batch arrives in another dtype than the rest of the stream (e.g. raw comparison results)
                 ops[-1].append(rng.choice(["bool", "bool", "uint8", "int8", "int32", "float16", "bfloat16", "float64"]))
-    if rng.random() < (0.004 if tier == "quick" else 0.002):
+    long_stream = index % 1500 == 34  # every 1500th run (so the quick tier has eight): a long stream on an object that was reset before
+    if long_stream or rng.random() < (0.004 if tier == "quick" else 0.002):
         # long stream: one huge update, then many small ones (float32 accumulation drift would show)
-        ops.insert(rng.randrange(len(ops) + 1), ["bigupdate", rng.choice([17, 20]) * 1000 * 1000, rng.choice(["alldiff", "half", "equal"])])
+        if long_stream:
+            if case["dtype"] not in CORE_DTYPES:
+                case["dtype"] = "float32"
+            ops = [op for op in ops if op[0] in ("update", "compute", "reset") and len(op) <= 3][:6] + [["reset"]]
+        ops.insert(len(ops) if long_stream else rng.randrange(len(ops) + 1), ["bigupdate", rng.choice([17, 20]) * 1000 * 1000, rng.choice(["alldiff", "half", "equal"] if not long_stream else ["alldiff", "half"])])
         for _ in range(300):
             ops.append(["update", [rng.randrange(npool)], "2d"])
     ops.append(["compute"])
